@@ -55,7 +55,15 @@ pub fn obs_i(r: &mut Rec, a: usize, b: usize) {
 
 /// rebuild the value of register `a` from its decimal text into the twin register 6, then observe
 fn twin_u(r: &mut Rec, a: usize) {
-    let t = r.g.u[a].to_str_radix(10).into_bytes();
+    // the decimal text is itself a recorded call (a value the library mangled may make it panic: that is data)
+    let mut t: Vec<u8> = vec![];
+    let ok = r.q_u("to_str_radix", "method", "\"radix\":10", a, |x| {
+        t = x.to_str_radix(10).into_bytes();
+        Ret::none().bytes("text", &t)
+    });
+    if !ok {
+        return;
+    }
     let ex = format!("\"ty\":\"U\",\"text\":{},\"radix\":10", bytes_json(&t));
     r.op("parse", "twin", &[], &[u(6)], &ex, |g| {
         let v = BigUint::parse_bytes(&t, 10);
@@ -71,7 +79,14 @@ fn twin_u(r: &mut Rec, a: usize) {
     r.q_u("is_zero", "zero", "", a, |x| Ret::none().b(x.is_zero()));
 }
 fn twin_i(r: &mut Rec, a: usize) {
-    let t = r.g.i[a].to_str_radix(10).into_bytes();
+    let mut t: Vec<u8> = vec![];
+    let ok = r.q_i("to_str_radix", "method", "\"radix\":10", a, |x| {
+        t = x.to_str_radix(10).into_bytes();
+        Ret::none().bytes("text", &t)
+    });
+    if !ok {
+        return;
+    }
     let ex = format!("\"ty\":\"I\",\"text\":{},\"radix\":10", bytes_json(&t));
     r.op("parse", "twin", &[], &[i(6)], &ex, |g| {
         let v = BigInt::parse_bytes(&t, 10);
